@@ -7,9 +7,14 @@ import (
 	"fmt"
 	"math/big"
 	"net"
+	"net/http"
+	"net/http/httptest"
 	"net/netip"
+	"net/url"
 	"path/filepath"
 	"sort"
+	"strconv"
+	"strings"
 	"sync"
 	"sync/atomic"
 	"testing"
@@ -19,6 +24,7 @@ import (
 	"github.com/DataDog/datadog-traceroute/cache"
 	"github.com/DataDog/datadog-traceroute/result"
 	"github.com/DataDog/datadog-traceroute/reversedns"
+	"github.com/DataDog/datadog-traceroute/server"
 	"github.com/DataDog/datadog-traceroute/traceroute"
 )
 
@@ -61,6 +67,7 @@ type docCase struct {
 	pubOK             bool
 	pubText           string
 	cancelAt          time.Duration // 0: never; else the caller's context is cancelled at this instant
+	viaHTTP           bool          // the request goes through the HTTP handler instead of the library call
 }
 
 func (h docHop) sx() sx {
@@ -330,6 +337,48 @@ func runDocCase(t *testing.T, c docCase) sx {
 		if c.cancelAt > 0 {
 			time.AfterFunc(c.cancelAt, cancel)
 		}
+		if c.viaHTTP {
+			// the same request through the HTTP handler of a Server around this Traceroute object: what a client gets is the
+			// status code and the body - the document, or the error's text (individual failures are exposed there by name)
+			qs := url.Values{}
+			qs.Set("target", params.Hostname)
+			qs.Set("max-ttl", strconv.Itoa(c.maxTTL))
+			qs.Set("timeout", strconv.Itoa(int(c.timeout/time.Millisecond)))
+			qs.Set("traceroute-queries", strconv.Itoa(c.q))
+			qs.Set("e2e-queries", strconv.Itoa(c.e))
+			qs.Set("reverse-dns", strconv.FormatBool(c.rdns))
+			qs.Set("source-public-ip", strconv.FormatBool(c.pubip))
+			qs.Set("skip-private-hops", strconv.FormatBool(c.skip))
+			rec := httptest.NewRecorder()
+			req := httptest.NewRequest(http.MethodGet, "/traceroute?"+qs.Encode(), nil).WithContext(ctx)
+			server.VerifNewServer(tr).TracerouteHandler(rec, req)
+			body := rec.Body.String()
+			found := sxList{}
+			if rec.Code != http.StatusOK {
+				if strings.Contains(body, "Failed to encode") {
+					out = L(sxInt(2), found, sxBool(false), L(), L(), sxInt(0))
+					return
+				}
+				for i := range docErrs {
+					if strings.Contains(body, fmt.Sprintf("#%d:", i)) || strings.Contains(body, fmt.Sprintf("#%d\n", i)) || strings.HasSuffix(strings.TrimSpace(body), fmt.Sprintf("#%d", i)) || strings.Contains(body, fmt.Sprintf("#%d ", i)) {
+						found = append(found, sxInt(int64(i)))
+					}
+				}
+				out = L(sxInt(1), found, sxBool(true), L(), L(), sxInt(0))
+				return
+			}
+			raw := []byte(strings.TrimSpace(body))
+			var back result.Results
+			rt := 0
+			if json.Unmarshal(raw, &back) == nil {
+				if raw2, e2 := json.Marshal(&back); e2 == nil && string(raw2) == string(raw) {
+					rt = 1
+				}
+			}
+			d, keys := docSx(raw)
+			out = L(sxInt(0), found, sxBool(false), d, keys, sxInt(int64(rt)))
+			return
+		}
 		res, err := tr.RunTraceroute(ctx, params)
 		found := sxList{}
 		if err != nil {
@@ -446,6 +495,7 @@ func genDocCase(r *rng, i int) docCase {
 	if i%11 == 0 {
 		c.q, c.e = 0, 0
 	}
+	c.viaHTTP = i%4 == 3
 	if r.intn(4) == 0 {
 		// the per-query function (like the real udp/tcp drivers) ignores the context: cancellation must not lose samples
 		c.cancelAt = time.Duration(1+r.intn(1500))*time.Millisecond + 777
@@ -520,6 +570,9 @@ func labDoc(e labEnv) {
 		}
 		if c.cancelAt > 0 {
 			tags["ctx_cancelled_midway"]++
+		}
+		if c.viaHTTP {
+			tags["via_http_handler"]++
 		}
 		if l, ok := out.(sxList); ok && len(l) > 0 {
 			tags[fmt.Sprintf("status%s", sxString(l[0]))]++
